@@ -30,6 +30,8 @@ def Cfg.maxDelta (c : Cfg) : Int := 2 ^ (c.w - 1)       -- max_delta = 1 << (bit
 def Cfg.span (c : Cfg) : Int := 2 ^ c.w                 -- span = 1 << bitwidth
 def Cfg.dwmMax (c : Cfg) : Nat := c.w / 2               -- dwm_maxsize = bitwidth / 2
 def Cfg.shift (c : Cfg) : Nat := 32 - c.w
+/-- the widths the library uses (AIFF / RAW sub-formats DWVW_12, DWVW_16, DWVW_24) -/
+def Cfg.ok (c : Cfg) : Prop := c.w = 12 ∨ c.w = 16 ∨ c.w = 24
 
 /-- C `a % b` for `b > 0` (truncating) -/
 def cmod (a b : Int) : Int := if a ≥ 0 then a % b else -((-a) % b)
@@ -67,17 +69,35 @@ structure Delta where
   extra : Int        -- extra_bit (-1: none)
 deriving Repr, DecidableEq
 
-/-- `delta`, `delta_negative`, `extra_bit` from the raw difference `d0 = sample - last_sample` -/
-def deltaOf (c : Cfg) (d0 : Int) : Delta :=
+/-- `delta` after the case distinction on the raw difference `d0 = sample - last_sample` -/
+def deltaMag (c : Cfg) (d0 : Int) : Int :=
   let M := c.maxDelta
-  let r : Delta :=
-    if d0 < -M then ⟨M + cmod d0 M, false, -1⟩
-    else if d0 = -M then ⟨M - 1, true, 1⟩
-    else if d0 > M then ⟨iabs (c.span - d0), true, -1⟩
-    else if d0 = M then ⟨M - 1, false, 1⟩
-    else if d0 < 0 then ⟨iabs d0, true, -1⟩
-    else ⟨d0, false, -1⟩
-  if r.delta = M - 1 ∧ r.extra = -1 then { r with extra := 0 } else r
+  if d0 < -M then M + cmod d0 M
+  else if d0 = -M then M - 1
+  else if d0 > M then iabs (c.span - d0)
+  else if d0 = M then M - 1
+  else if d0 < 0 then iabs d0
+  else d0
+
+/-- `delta_negative` after the same case distinction -/
+def deltaNeg (c : Cfg) (d0 : Int) : Bool :=
+  let M := c.maxDelta
+  if d0 < -M then false
+  else if d0 = -M then true
+  else if d0 > M then true
+  else if d0 = M then false
+  else if d0 < 0 then true
+  else false
+
+/-- `extra_bit` after the same case distinction (−1: none yet) -/
+def extra0 (c : Cfg) (d0 : Int) : Int :=
+  let M := c.maxDelta
+  if d0 < -M then -1 else if d0 = -M then 1 else if d0 > M then -1 else if d0 = M then 1 else -1
+
+/-- `delta`, `delta_negative`, `extra_bit` from the raw difference `d0 = sample - last_sample`, including
+    `if (delta == max_delta - 1 && extra_bit == -1) extra_bit = 0` -/
+def deltaOf (c : Cfg) (d0 : Int) : Delta :=
+  ⟨deltaMag c d0, deltaNeg c d0, if deltaMag c d0 = c.maxDelta - 1 ∧ extra0 c d0 = -1 then 0 else extra0 c d0⟩
 
 /-- `delta_width_modifier` -/
 def dwmOf (c : Cfg) (dw ldw : Int) : Int :=
